@@ -28,6 +28,7 @@ func main() {
 	only := flag.String("rule", "", "run only this rule id")
 	dump := flag.String("dump", "", "debug: dump SSA of function pkgrel:Name")
 	verbose := flag.Bool("v", false, "list every obligation")
+	dumpBaseline := flag.Bool("dump-baseline", false, "print the function inventory of the module (used to refresh baseline_funcs.txt)")
 	flag.Parse()
 
 	if *replay != "" {
@@ -52,7 +53,28 @@ func main() {
 		fmt.Printf("replaying property %s (%d recorded violations)\n", rp.Property, len(rp.Violations))
 	}
 	start := time.Now()
-	w, err := LoadWorld(*repo, nil)
+	var w *World
+	pkgs, err := loadPkgs(*repo, nil)
+	if err == nil && *dumpBaseline {
+		for _, n := range funcInventory(pkgs) {
+			fmt.Println(n)
+		}
+		return
+	}
+	if err == nil {
+		var nr *normResult
+		nr, pkgs, err = normalise(*repo, pkgs)
+		if err == nil {
+			w, err = buildWorld(*repo, pkgs)
+			if err == nil {
+				w.Dead = nr.Dead
+				w.NormLog = nr.Log
+				for _, l := range nr.Log {
+					fmt.Println("normalise: " + l)
+				}
+			}
+		}
+	}
 	if err != nil {
 		// fail closed: no verdict on a program that does not load
 		ids := expand(*prop)
